@@ -21,6 +21,14 @@ CLAIMED = {
              'explored history (11 scenario families, all worker and queue kinds, lifecycle calls, idle expiry).',
         note=CONC_NOTE + ' "Eventually runs" is C03; per-queue exactly-once hand-out is C04.',
         technique='Coq inductive invariant over a per-job transition system + lock-step trace validation', ref='5 C01'),
+    'C02': dict(
+        text='Machine-checked: the worker functions in progress never exceed curProcessing; curProcessing grows only when the event loop reserves a slot, and a reservation '
+             'leaves it at most at the limit its guard read (so after TunePool(n) every later reservation is bounded by n). The model follows one arbitrary job exactly and '
+             'the rest through counters; per-job projections of the whole log — including the single-event-loop precondition of every reservation — are replayed on the extracted '
+             'model on every run. Peak in-flight invocations per limit epoch are monitored on every explored history (gated worker functions, TunePool up/down, Restart, Bind).',
+        note='Theorems are about coq/SliceDisp.v. That only one event loop increments at a time is a validated precondition of the model, not a theorem about goroutine creation. '
+             'Trusted: Coq kernel, extraction, rewriter + shim runtime, projection, harness.',
+        technique='Coq inductive invariant over a one-job-plus-counters transition system + lock-step trace validation', ref='5 C02'),
     'C04': dict(
         text='Machine-checked refinement theorems (all inputs, all lengths, all capacity settings): the segmented FIFO refines a '
              'list (enqueue appends, dequeue returns the oldest); the (Priority, Index) binary heap built on container/heap '
@@ -37,6 +45,13 @@ CLAIMED = {
              'are monitored on every explored history.',
         note=CONC_NOTE + ' Liveness ("they do return") rests on C03.',
         technique='Coq inductive invariant over a per-job transition system + lock-step trace validation', ref='5 C05'),
+    'C06': dict(
+        text='Machine-checked: an accepted job is always visible to the barriers — counted by its queue\'s Len or, from before it leaves the queue until after its worker function '
+             'returned, by curProcessing — hence WaitUntilFinished (Len of every queue read 0, then curProcessing read 0) returns only when every job accepted before the call has '
+             'finished or been cancelled, and PauseAndWait / Stop / WaitAndStop (curProcessing read 0) return only when no worker function is executing. Per-job projections of the '
+             'whole log are replayed on the extracted model; early and never-returning barriers are monitored on every explored history (exact quiescence detection).',
+        note='Theorems are about coq/SliceDisp.v. No-missed-wake-up is decided by the quiescence monitor and rests on C03. Trusted: Coq kernel, extraction, rewriter + shim runtime, projection, harness.',
+        technique='Coq inductive invariant over a one-job-plus-counters transition system + lock-step trace validation', ref='5 C06'),
     'C08': dict(
         text='Machine-checked, for every batch size >= 0 and every interleaving of finishing items: the stream is closed at most once, '
              'the closer always finds it open, an unfinished item always finds it open (no send on closed), the wait group never goes '
@@ -45,6 +60,13 @@ CLAIMED = {
              'executed item, tagged, then close), empty batches, rejected / purged items are monitored on every explored history.',
         note=CONC_NOTE.replace('coq/SliceJob.v', 'coq/SliceBatch.v and coq/SliceJob.v'),
         technique='Coq inductive invariant over the batch counter/stream transition system + lock-step trace validation', ref='5 C08'),
+    'C09': dict(
+        text='Machine-checked (Dekker-style argument on the two atomics, as an inductive invariant): once a barrier caller has read curProcessing = 0 on a Paused / Stopped worker, '
+             'no worker function is executing, no dispatcher can dequeue, claim or start a job, and this lasts until Running / Initiated is stored (Resume, Restart); a reservation '
+             're-checked after the Pause store is returned unused; status stores leave the queues untouched. Per-job projections are replayed on the extracted model; starts between '
+             'a barrier return and the next Resume / Restart are monitored on every explored history.',
+        note='Theorems are about coq/SliceDisp.v. Trusted: Coq kernel, extraction, rewriter + shim runtime (sequentially consistent atomics), projection, harness.',
+        technique='Coq inductive invariant over a one-job-plus-counters transition system + lock-step trace validation', ref='5 C09'),
     'C10': dict(
         text='Machine-checked: a Close that returns nil before the start makes the job cancelled for good (never executed afterwards); '
              'at most one Close returns nil, the job is closed by exactly one compare-and-swap claim, its waiters are released at '
